@@ -53,7 +53,7 @@ func calleeName(c *ssa.CallCommon) string {
 
 func funcRefName(f *ssa.Function) string {
 	if f.Signature.Recv() != nil && f.Parent() == nil {
-		return "(" + typeStr(f.Signature.Recv().Type()) + ")." + f.Name()
+		return "(" + typeStr(f.Signature.Recv().Type()) + ")." + aliasName(f)
 	}
 	if f.Parent() != nil {
 		return funcRefName(f.Parent()) + "$" + strings.TrimPrefix(f.Name(), f.Parent().Name()+"$")
@@ -65,7 +65,7 @@ func funcRefName(f *ssa.Function) string {
 		pk = shortPkg(f.Object().Pkg())
 	}
 	// strip instantiation type arguments position noise
-	return pk + "." + f.Name()
+	return pk + "." + aliasName(f)
 }
 
 func paramIndex(p *ssa.Parameter) int {
